@@ -1,0 +1,17 @@
+//go:build verif
+
+package encoder
+
+// VerifFactors returns the parity lengths and the stored generator factor tables (monitor use only).
+func VerifFactors() (sets []int, tables [][]int) {
+	sets = append([]int{}, factorSets...)
+	for _, f := range factors {
+		tables = append(tables, append([]int{}, f...))
+	}
+	return
+}
+
+// VerifSymbols returns the encoder's symbol table in its lookup order (monitor use only).
+func VerifSymbols() []*SymbolInfo {
+	return append([]*SymbolInfo{}, symbols...)
+}
